@@ -146,9 +146,17 @@ def run_variant(ctx, main):
 
 def shown(e):
     """what an account balance shows of one entry: commodity and exact quantity; a commodity-less amount is displayed
-    with its own number of decimals (there is no commodity to take them from), which therefore is part of the report"""
+    rounded to its own number of decimals (there is no commodity to take them from) with trailing zeros trimmed, so the
+    quantity as displayed is part of the report (a larger internal precision that only adds zeros is not)"""
     s, q, pr = e
-    return (s, q, pr) if not s else (s, q)
+    if s:
+        return (s, q)
+    scaled = q * 10 ** pr
+    n = scaled.numerator // scaled.denominator
+    r = scaled - n
+    if r > F(1, 2) or (r == F(1, 2) and n % 2 == 1):
+        n += 1
+    return (s, q, F(n, 10 ** pr))
 
 
 def model_variant(jid, tree):
